@@ -233,6 +233,8 @@ pub struct SimNode {
     /// pending/failed `pay` results carry a placeholder preimage (so that they
     /// deserialise into the typed response) in this run?
     pub pay_placeholder_preimage: bool,
+    /// error messages are several KiB of mixed-width UTF-8 in this run
+    pub big_messages: bool,
     pub stats: NodeStats,
 }
 
@@ -286,8 +288,31 @@ impl SimNode {
             seq: 0,
             notif_queue: Vec::new(),
             pay_placeholder_preimage: true,
+            big_messages: false,
             stats: NodeStats::default(),
         }
+    }
+
+    /// Text of an injected error: in `big_messages` runs a few KiB of 1- to
+    /// 4-byte characters whose alignment varies from one message to the next.
+    pub fn fault_message(&self, base: &str) -> String {
+        if !self.big_messages {
+            return base.to_string();
+        }
+        let k = self.seq;
+        let mut m = String::from(base);
+        m.push(' ');
+        for _ in 0..(k % 5) {
+            m.push('x');
+        }
+        let want = 3000 + (k.wrapping_mul(977) % 6000) as usize;
+        let unit = ['\u{e9}', '\u{20ac}', 'a', '\u{1f600}', '\u{4e16}', '\u{fc}', 'b'];
+        let mut i = (k % 7) as usize;
+        while m.len() < want {
+            m.push(unit[i % 7]);
+            i += 1 + (k % 3) as usize;
+        }
+        m
     }
 
     pub fn tick(&mut self) -> u64 {
@@ -437,22 +462,22 @@ impl SimNode {
         match fault {
             RpcFault::Transport => {
                 self.rpcs[idx].fault = Some("transport");
-                self.rpcs[idx].state = RpcState::ReplyReady(SimReply::Transport(
-                    "Could not connect to lightning-rpc: Connection refused (os error 111)".into(),
-                ));
+                self.rpcs[idx].state = RpcState::ReplyReady(SimReply::Transport(self.fault_message(
+                    "Could not connect to lightning-rpc: Connection refused (os error 111)",
+                )));
                 return;
             }
             RpcFault::Code(0) => {
                 self.rpcs[idx].fault = Some("codeless");
                 self.rpcs[idx].state = RpcState::ReplyReady(SimReply::Codeless(
-                    "Error passing request to lightningd: broken pipe".into(),
+                    self.fault_message("Error passing request to lightningd: broken pipe"),
                 ));
                 return;
             }
             RpcFault::Code(c) => {
                 self.rpcs[idx].fault = Some("code");
-                self.rpcs[idx].state =
-                    RpcState::ReplyReady(err(c, "injected error (request not applied)"));
+                let m = self.fault_message("injected error (request not applied)");
+                self.rpcs[idx].state = RpcState::ReplyReady(err(c, &m));
                 return;
             }
             _ => {}
@@ -915,13 +940,13 @@ impl SimNode {
             }
             PayOutcome::Error(code) => SimReply::Error {
                 code: Some(code),
-                message: match code {
-                    203 => "Destination permanent failure".into(),
-                    205 => "Could not find a route".into(),
-                    206 => "Route too expensive".into(),
-                    210 => "Ran out of routes to try / stopped retrying".into(),
-                    _ => "pay failed".into(),
-                },
+                message: self.fault_message(match code {
+                    203 => "Destination permanent failure",
+                    205 => "Could not find a route",
+                    206 => "Route too expensive",
+                    210 => "Ran out of routes to try / stopped retrying",
+                    _ => "pay failed",
+                }),
                 data: Some(json!({"attempts": []})),
             },
         };
